@@ -322,6 +322,11 @@ def rule_o4(em, only_kinds=('child', 'handler')):
                 continue
             n = cnt.get(kind, 0); cnt[kind] = n + 1
             key = 'O4|%s|%s|#%d' % (body.name, kind, n)
+            if c.dest['l'] == 0 and not c.dest['p'] and body.is_closure and not getattr(body, 'is_view', False):
+                # the result of a *closure* goes to whoever runs the closure (Iterator::map, fold, ..): whether a
+                # failure stops the evaluation is decided by that consumer, not visible here
+                obs.append(bad('ORDER-O4', key, '%s result is the return value of a closure: whether a failure stops the evaluation depends on what consumes the closure (not decidable from the closure alone)' % kind, c.where(), body=body.name, bb=c.bb))
+                continue
             if c.dest['l'] == 0 and not c.dest['p']:
                 after = body.reachable_after(c.bb)
                 hit = [b for b in after if b in eff_blocks]
@@ -653,7 +658,10 @@ def em_fallback(ctx_cache, prog, em, rule, *args, **kw):
     except Exception:
         return first
     obs2 = second[0] if isinstance(second, tuple) else second
-    if not any(o.status == 'violated' for o in obs2):
+    n1 = len([o for o in obs if o.status == 'violated'])
+    n2 = len([o for o in obs2 if o.status == 'violated'])
+    if n2 < n1:
+        # clean, or at least the more precise report (fewer sites could not be read)
         for o in obs2:
             o.what = (o.what or '') + ' [read on the inlined evaluator]'
         return second
